@@ -100,6 +100,9 @@ def build_system(spec_system, rng):
     return system
 
 
+STATS = {}
+
+
 class _Capture(logging.Handler):
     def __init__(self):
         super().__init__(level=logging.WARNING)
@@ -115,6 +118,16 @@ def run_real(spec_system, reqs, rng):
     mods = [(r[0], r[2]) for r in reqs if r[1] == 'modification']
     muts = [(r[0], r[2]) for r in reqs if r[1] == 'mutation']
     logger = logging.getLogger('vermouth')
+    proc = AnnotateMutMod(mods, muts)
+    if rng.random() < 0.5:
+        # the SAME processor object was used before, on a system that holds every residue of the pool (so most requests found
+        # their residue there): what it learnt about that system says nothing about this one
+        primer = build_system([{'res': [dict(r, chain=list(r['chain']), resname=list(r['resname'])) for r in POOL], 'edges': []}], rng)
+        try:
+            proc.run_system(primer)
+        except Exception:      # noqa  (an unknown modification name raises here as it will below)
+            pass
+        STATS['primed'] = STATS.get('primed', 0) + 1
     cap = _Capture()
     logger.addHandler(cap)
     old = logger.level
@@ -122,7 +135,7 @@ def run_real(spec_system, reqs, rng):
     err = False
     crash = ''
     try:
-        AnnotateMutMod(mods, muts).run_system(system)
+        proc.run_system(system)
     except NameError:
         err = True
     except Exception as exc:      # noqa  any other exception is an outcome the specification never has
